@@ -28,6 +28,14 @@ def run(tier, seed):
         res, n = mc.generate("thorough", mc.THOROUGH, scen, commit_every=4, scale_every=50, keep=lambda i: i % 3 == seed % 3)
     out = vlib.replay("merge", scen, timeout=120)
     vlib.absorb_replay(v, out, "merge", scen, crash_sig=lambda sc, t: "merge/crash")
+    # N = 3 branches (Merge.tla is N-ary; MergeGen picks a third branch when ThirdOps is not empty)
+    tscen = os.path.join(vlib.sub("scn"), "merge3.ndjson")
+    if tier == "quick":
+        tres, tn = mc.generate("tripleq", mc.TRIPLEQ, tscen, commit_every=9, keep=lambda i: i % 2 == seed % 2)
+    else:
+        tres, tn = mc.generate("triple", mc.TRIPLE, tscen, commit_every=9)
+    tout = vlib.replay("merge", tscen, timeout=120)
+    vlib.absorb_replay(v, tout, "merge", tscen, crash_sig=lambda sc, t: "merge/crash")
     # tables without a primary key: every pair (and a family of triples) of row sets over a two-row base
     kscen = os.path.join(vlib.sub("scn"), "mergekeyless.ndjson")
     kres = vlib.run_tlc("MergeKeylessGen", "MergeKeylessGen.cfg", workers=2, scn_out=kscen, timeout=300)
@@ -43,6 +51,8 @@ def run(tier, seed):
                 "construction); non-trivial = the pair involves a column change, a conflict, a key column that is not first "
                 "or multi-block tables (class label of the scenario)",
         "classes": out.classes,
+        "three_branches": {"scenarios": tout.total, "passed": tout.passed, "tlc_states": tres.distinct,
+                           "laws": "order independence over the three branches; a third branch equal to the base is neutral"},
         "keyless": {"scenarios": kout.total, "passed": kout.passed, "tlc_states": kres.distinct,
                     "rule": "every ordered pair x 4 third branches of subsets of 4 rows over the base {1,2}, expected = Merge!KeylessResult"},
         "samples": vlib.samples_from(scen, 3),
@@ -54,7 +64,7 @@ def run(tier, seed):
         "the interactive merge UI is not driven: conflicts are dropped (resolution nil) and the remaining rows judged",
         "where a row-level change meets a column-level change the statement is ambiguous: both the cell-wise outcome and a reported conflict are accepted (Merge!AmbiguousKeys)",
         "column order is not part of a version; added-column positions are free",
-        "N = 2 branches in the keyed universe; keyless tables: N = 2 and N = 3 over 4 abstract rows (MergeKeylessGen)",
+        "N = 2 branches in the main keyed universe, N = 3 in a reduced one; keyless tables: N = 2 and N = 3 over 4 abstract rows (MergeKeylessGen)",
     ])
 
 
